@@ -349,17 +349,17 @@ var solvers = []solverSpec{
 }
 
 var (
-	solverSem   = make(chan struct{}, 16)
-	cacheMu     sync.Mutex
-	queryCache  = map[string]*SolveResult{}
-	inflight    = map[string]chan struct{}{}
-	scratchDir  string
-	scratchOnce sync.Once
-	solverSeed  int
-	statMu      sync.Mutex
-	statQueries int
-	statCached  int
-	statSolverS float64
+	solverSem     = make(chan struct{}, 16)
+	cacheMu       sync.Mutex
+	queryCache    = map[string]*SolveResult{}
+	inflight      = map[string]chan struct{}{}
+	scratchDir    string
+	scratchOnce   sync.Once
+	solverSeed    int
+	statMu        sync.Mutex
+	statQueries   int
+	statCached    int
+	statSolverS   float64
 	solverErrOnce sync.Once
 )
 
